@@ -699,7 +699,8 @@ func (d *D) RunItem(idx int, ctx *core.Ctx) {
 			ctx.Violate(f, v)
 		}
 	}
-	if c.conform > 0 && idx%c.conform == 0 && os.Getenv("VERIF_NO_CONFORM") == "" {
+	// chosen by hash, not by idx%N: with N equal to the worker count all strace work would land on one worker
+	if c.conform > 0 && prng.Mix(uint64(idx), 0x5eed)%uint64(c.conform) == 0 && os.Getenv("VERIF_NO_CONFORM") == "" {
 		d.conformance(sc, ctx, c.conformN)
 	}
 	if len(ctx.St.Samples) < 3 && len(sc.Files) > 0 && len(sc.Files[0].Content) < 300 {
